@@ -37,21 +37,59 @@ def _const_str(n) -> Optional[str]:
         return None
 
 
-def passes(fn: ast.FunctionDef) -> list[Pass]:
+def _flags_of(call: ast.Call, skip_pos: int) -> int:
+    flags = 0
+    cands = [kw.value for kw in call.keywords if kw.arg == "flags"]
+    if len(call.args) > skip_pos and call.func.attr == "compile":  # re.compile(pattern, flags)
+        cands.append(call.args[skip_pos])
+    for v in cands:
+        try:
+            flags |= int(eval(compile(ast.Expression(v), "<flags>", "eval"), {"re": re}))
+        except Exception:  # noqa: BLE001
+            pass
+    return flags
+
+
+def compiled_constants(module_tree: Optional[ast.AST]) -> dict:
+    """module-level `NAME = re.compile(<literal>[, flags])` assignments: name -> (pattern, flags)"""
+    out = {}
+    if module_tree is None:
+        return out
+    for st in getattr(module_tree, "body", []):
+        if isinstance(st, ast.Assign) and len(st.targets) == 1 and isinstance(st.targets[0], ast.Name):
+            v = st.value
+        elif isinstance(st, ast.AnnAssign) and isinstance(st.target, ast.Name) and st.value is not None:
+            v = st.value
+            st = ast.Assign(targets=[st.target], value=v)
+        else:
+            continue
+        if isinstance(v, ast.Call) and isinstance(v.func, ast.Attribute) and isinstance(v.func.value, ast.Name) and v.func.value.id == "re" and v.func.attr == "compile" and v.args:
+            pat = _const_str(v.args[0])
+            if pat is not None:
+                out[st.targets[0].id] = (pat, _flags_of(v, 1))
+    return out
+
+
+def passes(fn: ast.FunctionDef, module_tree: Optional[ast.AST] = None) -> list[Pass]:
+    """re.sub / finditer / search / match / split calls of `fn` with a literal pattern, in source order; patterns precompiled
+    into module-level constants (`X = re.compile(...)`; `X.sub(...)`) are resolved when the module tree is given."""
+    consts = compiled_constants(module_tree)
     out = []
     for n in ast.walk(fn):
-        if isinstance(n, ast.Call) and isinstance(n.func, ast.Attribute) and isinstance(n.func.value, ast.Name) and n.func.value.id == "re" and n.func.attr in ("sub", "finditer", "search", "match", "split") and n.args:
+        if not (isinstance(n, ast.Call) and isinstance(n.func, ast.Attribute) and isinstance(n.func.value, ast.Name) and n.func.attr in ("sub", "finditer", "search", "match", "split")):
+            continue
+        if n.func.value.id == "re" and n.args:
             p = _const_str(n.args[0])
+            if p is None and isinstance(n.args[0], ast.Name) and n.args[0].id in consts:
+                p, fl = consts[n.args[0].id]
+                out.append(Pass(n.lineno, p, fl | _flags_of(n, 99), n.func.attr))
+                continue
             if p is None:
                 continue
-            flags = 0
-            for kw in n.keywords:
-                if kw.arg == "flags":
-                    try:
-                        flags = eval(compile(ast.Expression(kw.value), "<flags>", "eval"), {"re": re})
-                    except Exception:  # noqa: BLE001
-                        flags = 0
-            out.append(Pass(n.lineno, p, flags, n.func.attr))
+            out.append(Pass(n.lineno, p, _flags_of(n, 99), n.func.attr))
+        elif n.func.value.id in consts:
+            p, fl = consts[n.func.value.id]
+            out.append(Pass(n.lineno, p, fl, n.func.attr))
     return sorted(out, key=lambda x: x.line)
 
 
